@@ -63,6 +63,9 @@ def run(tier):
         selftest(marked, wd)
     else:
         rep.notes.append("self-test skipped: violation list capped")
+    # specification growth hosted here (node age verification): conformance, informational (MODEL-DRIFT, never a VIOLATION)
+    import growth_nodeage
+    growth_nodeage.run(rep, wd, big)
     return rep.finish(
         rule="a case = (entry point, k, optimisation weights, candidate set with region/ASN/site/metadata flag, distinct outcome "
              "over the sampler seeds tried) from the real select_nodes; plus sample_nodes / calculate_weight calls with degenerate "
